@@ -109,12 +109,17 @@ def _concrete(job):
     from mirsym.exec import Ctx, Exec
     from mirsym.models import COMMON, ConcStr
     p, t = job
-    funcs, f = _load()
-    ctx = Ctx(funcs, COMMON, mode="int", loop_bound=10000)
-    out = Exec(ctx).run_function(f, [("refval", ConcStr(p)), ("refval", ConcStr(t))])
-    if len(out.rets) != 1 or out.panics:
-        return None
-    return bool(out.rets[0][1])
+    try:
+        funcs, f = _load()
+        ctx = Ctx(funcs, COMMON, mode="int", loop_bound=10000)
+        out = Exec(ctx).run_function(f, [("refval", ConcStr(p)), ("refval", ConcStr(t))])
+        if out.panics and not out.rets:
+            return "PANIC"
+        if len(out.rets) != 1:
+            return "ERR: %d outcomes" % len(out.rets)
+        return bool(out.rets[0][1])
+    except Exception as e:
+        return "ERR: %s: %s" % (type(e).__name__, str(e)[:200])
 
 
 REPO_TEST_PAIRS = [("ab", "ab"), ("ab", "cd"), ("ab*", "ab"), ("*ab", "ab"), ("ab*", "abcd"), ("*cd", "abcd"), ("ab", "abcd"), ("ab*ef", "abcdef"),
@@ -148,7 +153,18 @@ def run(tier):
         pairs.append(("".join(rnd.choice(alpha) for _ in range(rnd.randint(0, 7))), "".join(rnd.choice(alpha[1:]) for _ in range(rnd.randint(0, 9)))))
     native = mengine.native_eval(exe_dev, ["wildcard %s %s" % (mengine.hexs(p), mengine.hexs(t)) for p, t in pairs])
     enc = mengine.pmap(_concrete, pairs)
-    bad = [(pairs[i], native[i], enc[i]) for i in range(len(pairs)) if enc[i] is None or str(int(enc[i])) != native[i]]
+    cannot = [e for e in enc if isinstance(e, str) and e.startswith("ERR")]
+    if cannot:
+        # the executor cannot interpret the current code (e.g. a std call without a model): nothing is decided by this engine
+        log("UNDISCHARGED: the MIR executor cannot run the current wildcard_match (%s) — property not decided on this tree" % cannot[0])
+        write_evidence(ID, tier, {"evaluations": len(pairs), "distinct_nontrivial": 0, "explanation": "encoding cannot execute the current code: " + cannot[0],
+                                  "samples": [cannot[0]], "undischarged": [{"why": cannot[0]}]}, [], time.time() - t0, 0)
+        return 0
+    def same(e, n):
+        if e == "PANIC":
+            return n == "PANIC"
+        return isinstance(e, bool) and str(int(e)) == n
+    bad = [(pairs[i], native[i], enc[i]) for i in range(len(pairs)) if not same(enc[i], native[i])]
     if bad:
         log("MACHINERY-ERROR: translator validation failed: encoding and native code disagree on %d of %d concrete inputs, e.g. %r" % (len(bad), len(pairs), bad[0]))
         write_evidence(ID, tier, {"evaluations": len(pairs), "distinct_nontrivial": 0, "explanation": "translator validation failed", "samples": [repr(bad[0])]}, [], time.time() - t0, 0)
